@@ -244,9 +244,22 @@ class _FuncInfo:
                         okl = False
                     continue
                 p2 = par_.get(id(p1)) if p1 is not None else None
-                if isinstance(p1, ast.Attribute) and p1.attr == "append" and isinstance(p2, ast.Call) and len(p2.args) == 1 and isinstance(p2.args[0], ast.Name) and p2.args[0].id in line_vars:
+                if isinstance(p1, ast.Attribute) and p1.attr == "append" and isinstance(p2, ast.Call) and len(p2.args) == 1 and ((isinstance(p2.args[0], ast.Name) and p2.args[0].id in line_vars) or _single_next(p2.args[0], lits)):
                     napp += 1
                     continue
+                # `L[-1]` read (peek at the line just collected): no effect on the pairing
+                if isinstance(p1, ast.Subscript) and p1.value is n and isinstance(p1.ctx, ast.Load):
+                    continue
+                # `while L: <lit>.back(L.pop())`: the restoring loop in its pop form
+                if isinstance(p1, ast.While) and p1.test is n and len(p1.body) == 1 and not p1.orelse and isinstance(p1.body[0], ast.Expr):
+                    c0 = p1.body[0].value
+                    if isinstance(c0, ast.Call) and isinstance(c0.func, ast.Attribute) and c0.func.attr == "back" and isinstance(c0.func.value, ast.Name) and c0.func.value.id in lits and len(c0.args) == 1 and isinstance(c0.args[0], ast.Call) and isinstance(c0.args[0].func, ast.Attribute) and c0.args[0].func.attr == "pop" and isinstance(c0.args[0].func.value, ast.Name) and c0.args[0].func.value.id == L and not c0.args[0].args:
+                        loops_.append(p1)
+                        continue
+                if isinstance(p1, ast.Attribute) and p1.attr == "pop" and isinstance(p2, ast.Call) and not p2.args:
+                    p3 = par_.get(id(p2))
+                    if isinstance(p3, ast.Call) and isinstance(p3.func, ast.Attribute) and p3.func.attr == "back":
+                        continue  # the pop inside the restoring loop (judged with the loop)
                 lp = None
                 if isinstance(p1, ast.For) and p1.iter is n:
                     lp = p1
@@ -683,7 +696,7 @@ class Consumption:
 
     def _loop(self, f, fi, s, st, ex, pv, lits, rec=None):
         T = type(s)
-        if T is ast.For and any(id(s) in fi.restore_lists.get(L, ()) for L in self._active_lists(fi, rec)):
+        if T in (ast.For, ast.While) and any(id(s) in fi.restore_lists.get(L, ()) for L in self._active_lists(fi, rec)):
             return st
         if T is ast.While:
             self.record_expr(f, s.test, st, lits, rec)
